@@ -14,6 +14,7 @@ import AdaptixProofs.Lemmas.GenericTable
 import AdaptixProofs.Lemmas.GenericResolve
 import AdaptixProofs.Lemmas.GenericInv
 import AdaptixProofs.Lemmas.GenericMro
+import AdaptixProofs.Lemmas.GenericPydantic
 
 namespace Adaptix.Generic.C16
 
@@ -79,6 +80,29 @@ theorem resolve_eq_spec_partial (H : Hierarchy) (hwf : Wf H) (hp : PrecedenceAgr
         rw [h1] at this
         cases this
     simp [declaredAt, this]
+
+/-- **pydantic.**  pydantic substitutes the arguments of subscribed parents into
+    `model_fields` itself; *assuming that substitution is the declared type
+    relative to the class's own parameters* (this is how `rawStorage` models the
+    pydantic introspector — third-party behaviour, validated by the raw-members
+    correspondence, not verified), the resolver leaves those types alone and the
+    final parametrisation yields the declared type. -/
+theorem resolve_eq_spec_pydantic (H : Hierarchy) (hwf : Wf H) (hp : PrecedenceAgrees H)
+    (hk : H.kind = .pydantic) : ResolveEqSpec H := by
+  intro tgt htgt k
+  have hy : HypsP H := ⟨hwf, hp, hk⟩
+  unfold resolve declaredType
+  rw [getResolvedWith_lookup, byParents_pydantic hy H.classes.length tgt.cls htgt htgt k]
+  have hσ : bindBase H [] tgt = (H.cls tgt.cls).params.zip (effArgs H tgt) := by
+    unfold bindBase effArgs
+    cases tgt.args with
+    | some args =>
+      simp only
+      congr 1
+      exact List.map_id'' (fun a => Hint.subst_nil a) args
+    | none => rfl
+  rw [hσ, declaredAt_comp hwf (H.classes.length + 1) tgt.cls _ k htgt,
+    declaredAt_fuel hwf.1 (H.classes.length + 1) (tgt.cls + 1) tgt.cls _ k (by omega) (by omega) htgt]
 
 /-- Side condition (2) holds for every kind except TypedDict. -/
 theorem override_visible_of_class_kind (H : Hierarchy) (hk : H.kind ≠ .typedDict) :
